@@ -42,7 +42,8 @@ def main(argv=None) -> int:
             ctx = report.Ctx(args.repo)
             report.CURRENT = None
             try:
-                r = mod.run(ctx, args.tier)
+                from sa.props import run_property
+                r = run_property(ctx, pid, args.tier)
                 # a rule that matched nothing decides nothing: fail the run rather than pass vacuously
                 for rid_, rr_ in r.rules.items():
                     if not rr_.get("obligations") and not [f_ for f_ in r.findings if f_.rule == rid_]:
